@@ -55,6 +55,11 @@ RULE = ("one run = one command line of cnfgen / pbgen / cnfshuffle with a "
 ASSUMPTIONS = [
     "every command line carries an explicit --seed (without it the output "
     "is documented to depend on the time)",
+    "the tree under test (files and git HEAD of VERIF_REPO) does not change "
+    "while a check runs: the 'generator' header line is 'git describe' of "
+    "that tree, so a commit made between two fresh interpreters shows up as "
+    "a difference that no replay reproduces (harness error, exit 2, seen "
+    "once when /repo was committed to during a background sweep)",
     "in-process runs share one interpreter: process-level inputs (hash "
     "seed, addresses, cwd) are varied only by the 'proc' configuration",
 ]
